@@ -1,6 +1,8 @@
 (* C12 - property theorems only. Statements are about the Mech model of impl registration, method
-   dispatch, self copy-in / write-back and impl statics (Model.v); proofs are in Maps.v, Registry.v,
-   Calls.v, Laws.v; `_refuted` witnesses in Witness.v. *)
+   dispatch, self copy-in / write-back, the impl-context stack and impl statics (Model.v); proofs are in Maps.v,
+   Registry.v, Calls.v, Laws.v; `_refuted` witnesses in Witness.v.
+   Calls nest to any depth: `call n hs` / `run_n n hs` run with fuel n (= maximal nesting depth), every theorem
+   holds for every n; method bodies act on objects of their own through the same operations as main (SOp). *)
 From Coq Require Import List Arith Bool Ascii String ZArith Permutation.
 From Cb Require Import C12.Model C12.Maps C12.Registry C12.Calls C12.Laws C12.OrderIndep C12.Witness.
 Import ListNotations.
@@ -12,20 +14,20 @@ Local Open Scope list_scope.
    receiver (variable, interface copy, parameter, pointer target) holds the interface value (i, t, p)
    runs exactly the method m of the block find_impl_for_struct returns for (t, i), with self := p, under
    that block's impl context (mk_entry d m = the method stamped with (i_iface d, i_type d)). *)
-Theorem dispatch_on_dynamic_type : forall ds r st rc l i t p d m arg,
+Theorem dispatch_on_dynamic_type : forall n hs ds r st rc l i t p d m arg,
   wf_impls ds -> register_all empty_registry ds = inl r -> s_funcs st = r_funcs r ->
   resolve (s_vars st) rc = Some l -> read (s_vars st) l = Some (VIface i t p) ->
   find_impl ds t i = Some d -> In m (i_methods d) ->
-  call st rc (m_name m) arg = invoke st l (VIface i t p) t p (mk_entry d m) arg.
+  call n hs st rc (m_name m) arg = invoke n hs st l (VIface i t p) t p (mk_entry d m) arg.
 Proof. exact dispatch_on_dynamic_type_l. Qed.
 Print Assumptions dispatch_on_dynamic_type.
 
 (* The same for receivers of the concrete type: value, pointer to struct, array element, struct parameter. *)
-Theorem dispatch_concrete_receiver : forall ds r st rc l t p d m arg,
+Theorem dispatch_concrete_receiver : forall n hs ds r st rc l t p d m arg,
   wf_impls ds -> register_all empty_registry ds = inl r -> s_funcs st = r_funcs r ->
   resolve (s_vars st) rc = Some l -> read (s_vars st) l = Some (VConc t p) ->
   In d ds -> i_type d = t -> In m (i_methods d) ->
-  call st rc (m_name m) arg = invoke st l (VConc t p) t p (mk_entry d m) arg.
+  call n hs st rc (m_name m) arg = invoke n hs st l (VConc t p) t p (mk_entry d m) arg.
 Proof. exact dispatch_concrete_receiver_l. Qed.
 Print Assumptions dispatch_concrete_receiver.
 
@@ -58,8 +60,8 @@ Print Assumptions dispatch_independent_of_registration_order.
 Theorem program_output_independent_of_impl_order : forall p ds' r, Permutation (p_impls p) ds' ->
   wf_impls (p_impls p) -> parse_check (p_ifaces p) [] (p_impls p) = None ->
   register_all empty_registry (p_impls p) = inl r ->
-  run_program (with_impls p ds') = run_program p.
-Proof. exact program_order_independent_l. Qed.
+  (forall n, run_program_n n (with_impls p ds') = run_program_n n p) /\ run_program (with_impls p ds') = run_program p.
+Proof. exact program_order_independent_both_l. Qed.
 Print Assumptions program_output_independent_of_impl_order.
 
 (* Registration succeeds exactly when no two blocks for one type share a method name. *)
@@ -70,12 +72,12 @@ Print Assumptions registration_iff_conflict_free.
 
 (* Re-binding: whatever the interface variable x held before,  x = src  makes the next call on x run
    the impl registered for src's dynamic type, on a copy of src's current state. *)
-Theorem rebinding_switches_impl : forall ds r st st' x i src sv t2 p d m arg,
+Theorem rebinding_switches_impl : forall n hs ds r st st' x i src sv t2 p d m arg,
   wf_impls ds -> register_all empty_registry ds = inl r -> s_funcs st = r_funcs r ->
   alookup src (s_vars st) = Some sv -> src_view sv = Some (t2, p) ->
   bind st x i src = Ok st' ->
   find_impl ds t2 i = Some d -> In m (i_methods d) ->
-  call st' (RVar x) (m_name m) arg = invoke st' (LVar x) (VIface i t2 p) t2 p (mk_entry d m) arg.
+  call n hs st' (RVar x) (m_name m) arg = invoke n hs st' (LVar x) (VIface i t2 p) t2 p (mk_entry d m) arg.
 Proof. exact rebinding_switches_impl_l. Qed.
 Print Assumptions rebinding_switches_impl.
 
@@ -94,33 +96,61 @@ Print Assumptions self_reads_current_state.
 
 (* ... in particular a direct write to the receiver just before the call is what self.f reads, through
    the variable and through any pointer to it, and likewise for an array element. *)
-Theorem self_sees_latest_write : forall hs st x f z st1 t fs,
-  alookup x (s_vars st) = Some (VConc t (PStruct fs)) -> step hs st (OSet x f z) = Ok st1 ->
+Theorem self_sees_latest_write : forall n hs st x f z st1 t fs,
+  alookup x (s_vars st) = Some (VConc t (PStruct fs)) -> step n hs st (OSet x f z) = Ok st1 ->
   receiver (s_vars st1) (RVar x) = Some (LVar x, VConc t (PStruct (aset f z fs)), t, PStruct (aset f z fs)) /\
   (forall q, alookup q (s_vars st1) = Some (VPtr x) -> receiver (s_vars st1) (RPtr q) = receiver (s_vars st1) (RVar x)) /\
   (forall fr, f_self fr = PStruct (aset f z fs) -> eval fr (EField f) = inl z).
 Proof. exact self_sees_latest_write_l. Qed.
 Print Assumptions self_sees_latest_write.
 
-Theorem self_sees_latest_element_write : forall hs st a k f z st1 t es fs,
+Theorem self_sees_latest_element_write : forall n hs st a k f z st1 t es fs,
   alookup a (s_vars st) = Some (VArr t es) -> nth_error es k = Some (PStruct fs) ->
-  step hs st (OSetElem a k f z) = Ok st1 ->
+  step n hs st (OSetElem a k f z) = Ok st1 ->
   receiver (s_vars st1) (RElem a k) = Some (LElem a k, VConc t (PStruct (aset f z fs)), t, PStruct (aset f z fs)).
 Proof. exact self_sees_latest_elem_write_l. Qed.
 Print Assumptions self_sees_latest_element_write.
 
 (* Member writes made by the method are in the receiver after the call - for every receiver form the
    receiver's cell then holds the final self - and no disjoint cell (other variables, other array
-   elements, the source an interface value was copied from) changes. *)
-Theorem self_writes_visible_after_call : forall st rc m arg st' z, call st rc m arg = Ok (st', z) ->
+   elements, the source an interface value was copied from) changes.  (A successful call has fuel S n;
+   the body ran with its own calls at fuel n.)  The scope is main's or a method body's: see
+   calls_in_bodies_take_the_same_path. *)
+Theorem self_writes_visible_after_call : forall n hs st rc m arg st' z, call (S n) hs st rc m arg = Ok (st', z) ->
   exists l v t self fe fr',
     receiver (s_vars st) rc = Some (l, v, t, self) /\
     alookup (method_key t m) (s_funcs st) = Some fe /\
-    exec_body (nested_self (s_funcs st) t) (frame0 fe self arg (s_statics st) (s_out st)) (m_body (fe_meth fe)) = inl fr' /\
+    exec_body (run_n n hs) hs st t (frame0 fe self arg st) (m_body (fe_meth fe)) = inl fr' /\
     read (s_vars st') l = Some (with_payload v (f_self fr')) /\
     (forall l', disjoint l l' -> read (s_vars st') l' = read (s_vars st) l').
 Proof. exact self_writes_visible_l. Qed.
 Print Assumptions self_writes_visible_after_call.
+Theorem successful_call_has_fuel : forall n hs st rc m arg st' z, call n hs st rc m arg = Ok (st', z) -> exists k, n = S k.
+Proof. exact call_ok_fuel. Qed.
+Print Assumptions successful_call_has_fuel.
+
+(* A call a method body makes on one of its own objects - variable, interface copy, pointer, array element - is
+   the very same call path, run on the body's scope under the body's impl context: every dispatch / self /
+   write-back theorem above therefore holds at every nesting level. *)
+Theorem calls_in_bodies_take_the_same_path : forall n hs g t fr rc m arg,
+  exec_stmt (run_n n hs) hs g t fr (SOp (OCall rc m arg)) =
+  match call n hs (st_of g fr) rc m arg with
+  | Fail o x => inr (o, x)
+  | Ok (st', z) => inl {| f_self := f_self fr; f_arg := f_arg fr; f_vars := s_vars st'; f_statics := s_statics st';
+                          f_ctx := s_ctx st'; f_out := s_out st' ++ [("", [z])] |}
+  end.
+Proof. exact body_call_is_call_l. Qed.
+Print Assumptions calls_in_bodies_take_the_same_path.
+
+(* What a nested  self.m(..)  of a void method wrote to self is in the caller's self afterwards. *)
+Theorem nested_void_self_call_writes_visible : forall n hs g t m z fr fr1 r fe,
+  wf_ctx (f_ctx fr) ->
+  alookup (method_key t m) (s_funcs g) = Some fe -> m_void (fe_meth fe) = true ->
+  nested_self_g (run_n n hs) g t m z fr = inl (fr1, r) ->
+  exists fr', run_n n hs fe t (f_self fr) z (st_of g fr) = inl (fr', r) /\
+    f_self fr1 = f_self fr' /\ r = 0%Z /\ f_ctx fr1 = f_ctx fr /\ f_vars fr1 = f_vars fr /\ f_arg fr1 = f_arg fr.
+Proof. exact nested_void_self_call_writes_visible_l. Qed.
+Print Assumptions nested_void_self_call_writes_visible.
 
 (* The impl-static namespace impl::I::T::name is injective on identifiers ... *)
 Theorem impl_static_key_injective : forall i t n i' t' n',
@@ -129,19 +159,27 @@ Theorem impl_static_key_injective : forall i t n i' t' n',
 Proof. exact static_key_inj. Qed.
 Print Assumptions impl_static_key_injective.
 
-(* ... hence statics are separate: a call on a receiver of dynamic type t leaves the statics of every pair
-   with another type unchanged, whatever the body does and whatever it calls ... *)
-Theorem impl_statics_separate : forall ds r st rc m arg st' z l v self t i' t' n',
-  wf_impls ds -> register_all empty_registry ds = inl r -> s_funcs st = r_funcs r ->
-  call st rc m arg = Ok (st', z) -> receiver (s_vars st) rc = Some (l, v, t, self) ->
-  no_colon i' = true -> no_colon t = true -> no_colon t' = true -> no_colon n' = true -> t' <> t ->
+(* ... hence statics are separate, however deep calls nest: let TS be a set of types closed under "a method of
+   the type declares an object of" (every object a body can call a method on has a TS type).  A call on a receiver
+   whose type is in TS - including everything its body calls, to any depth, through self, its own objects, pointers,
+   interface copies and helper functions - leaves the statics of every pair with a type outside TS unchanged. *)
+Theorem impl_statics_separate : forall (TS : name -> Prop) n hs ds r st rc m arg st' z l v self t i' t' n',
+  wf_impls ds -> register_all empty_registry ds = inl r -> s_funcs st = r_funcs r -> wf_ctx (s_ctx st) ->
+  closed (s_funcs st) TS -> (forall x, TS x -> no_colon x = true) ->
+  call n hs st rc m arg = Ok (st', z) -> receiver (s_vars st) rc = Some (l, v, t, self) -> TS t ->
+  no_colon i' = true -> no_colon t' = true -> no_colon n' = true -> ~ TS t' ->
   alookup (static_key i' t' n') (s_statics st') = alookup (static_key i' t' n') (s_statics st).
 Proof. exact impl_statics_separate_l. Qed.
 Print Assumptions impl_statics_separate.
+(* (when the methods of type t declare objects of type t only, {t} is closed: the former statement) *)
+Theorem single_type_is_closed : forall fs t,
+  (forall k fe, alookup k fs = Some fe -> fe_type fe = t -> vars_typed (eq t) (m_locals (fe_meth fe))) -> closed fs (eq t).
+Proof. exact closed_single_type. Qed.
+Print Assumptions single_type_is_closed.
 
 (* ... and a method whose body makes no nested call touches only the statics of the pair that declares it. *)
-Theorem impl_statics_separate_between_pairs : forall st rc m arg st' z l v self t fe i' t' n',
-  call st rc m arg = Ok (st', z) -> receiver (s_vars st) rc = Some (l, v, t, self) ->
+Theorem impl_statics_separate_between_pairs : forall n hs st rc m arg st' z l v self t fe i' t' n',
+  call n hs st rc m arg = Ok (st', z) -> receiver (s_vars st) rc = Some (l, v, t, self) ->
   alookup (method_key t m) (s_funcs st) = Some fe -> has_calls (m_body (fe_meth fe)) = false ->
   no_colon (fe_iface fe) = true -> no_colon i' = true -> no_colon (fe_type fe) = true -> no_colon t' = true ->
   (i', t') <> (fe_iface fe, fe_type fe) ->
@@ -151,45 +189,71 @@ Print Assumptions impl_statics_separate_between_pairs.
 
 (* Statics are shared by ALL calls of the pair (DESIGN.md section 7 #34, fixed by ffeef7f): every method starts
    under the context of the block that declares it - struct value, pointer, array element, parameter,
-   interface value, typedef'd primitive alike - so a static name reads that pair's cell. *)
-Theorem statics_reachable_through_every_receiver : forall fe self arg ss out n,
-  eval (frame0 fe self arg ss out) (EStatic n) =
-  match alookup (static_key (fe_iface fe) (fe_type fe) n) ss with Some v => inl v | None => inr (EUndefVar n) end.
+   interface value, typedef'd primitive alike, at top level or nested - so a static name reads that pair's cell ... *)
+Theorem statics_reachable_through_every_receiver : forall fe self arg st n,
+  eval (frame0 fe self arg st) (EStatic n) =
+  match alookup (static_key (fe_iface fe) (fe_type fe) n) (s_statics st) with Some v => inl v | None => inr (EUndefVar n) end.
 Proof. exact method_sees_own_statics_l. Qed.
 Print Assumptions statics_reachable_through_every_receiver.
 
-(* The impl context the caller had is in force again after every call (fixed by 3be9fd7), at top level
-   and after a nested  self.m(..)  inside a body. *)
+(* ... and it keeps doing so for the whole body: after ANY prefix b of the body, with calls nested to any depth in
+   it (fuel n arbitrary, other pairs, recursion), the impl context is still exactly the one the method entered
+   with, the current pair is the declaring one and a static name still denotes that pair's cell.
+   (This is what seeded/C12-1 breaks: there the context after a call nested three deep is the outermost pair's.) *)
+Theorem nested_calls_keep_declaring_context : forall n hs fe t self arg st b fr1,
+  exec_body (run_n n hs) hs st t (frame0 fe self arg st) b = inl fr1 ->
+  f_ctx fr1 = enter_ctx (s_ctx st) (fe_iface fe, fe_type fe) /\
+  c_cur (f_ctx fr1) = Some (fe_iface fe, fe_type fe) /\
+  forall s, eval fr1 (EStatic s) =
+    match alookup (static_key (fe_iface fe) (fe_type fe) s) (f_statics fr1) with Some v => inl v | None => inr (EUndefVar s) end.
+Proof. exact body_keeps_declaring_context_l. Qed.
+Print Assumptions nested_calls_keep_declaring_context.
+
+(* The mechanism (static.cpp enter_impl_context / exit_impl_context: current pair + vector of saved pairs):
+   exit after enter gives back the context - current pair AND saved stack - that was there before, the entered
+   pair is current in between, and so does every well-nested history of enters and exits. *)
+Theorem impl_context_stack_discipline :
+  (forall c p, wf_ctx c -> exit_ctx (enter_ctx c p) = c) /\
+  (forall c p, wf_ctx (enter_ctx c p) /\ c_cur (enter_ctx c p) = Some p) /\
+  wf_ctx ctx0 /\
+  (forall w, balanced w -> forall c, wf_ctx c -> run_acts c w = c) /\
+  (forall w c p, balanced w -> c_cur (run_acts (enter_ctx c p) w) = Some p).
+Proof. exact impl_context_stack_discipline_l. Qed.
+Print Assumptions impl_context_stack_discipline.
+
+(* The impl context the caller had is in force again after every call (fixed by 3be9fd7), at top level, after a
+   nested  self.m(..)  and after any statement of a body, for calls nested to any depth. *)
 Theorem impl_context_restored_after_call :
-  (forall st rc m arg st' z, call st rc m arg = Ok (st', z) -> s_ctx st' = s_ctx st) /\
-  (forall funcs t m z fr fr1 r, nested_self funcs t m z fr = inl (fr1, r) -> f_ctx fr1 = f_ctx fr).
+  (forall n hs st rc m arg st' z, wf_ctx (s_ctx st) -> call n hs st rc m arg = Ok (st', z) -> s_ctx st' = s_ctx st) /\
+  (forall n hs g t m z fr fr1 r, wf_ctx (f_ctx fr) -> nested_self_g (run_n n hs) g t m z fr = inl (fr1, r) -> f_ctx fr1 = f_ctx fr) /\
+  (forall n hs g t s fr fr', wf_ctx (f_ctx fr) -> exec_stmt (run_n n hs) hs g t fr s = inl fr' -> f_ctx fr' = f_ctx fr).
 Proof. exact impl_context_restored_l. Qed.
 Print Assumptions impl_context_restored_after_call.
 
 (* `return self;` of a primitive self returns the receiver's value (fixed by 5e201e9). *)
-Theorem return_self_returns_receiver : forall cb fe v arg ss out,
-  m_body (fe_meth fe) = [] -> m_ret (fe_meth fe) = ESelf ->
-  exists fr', run_method cb fe (PPrim v) arg ss out = inl (fr', v).
+Theorem return_self_returns_receiver : forall run hs fe t v arg st,
+  m_body (fe_meth fe) = [] -> m_ret (fe_meth fe) = ESelf -> m_void (fe_meth fe) = false ->
+  exists fr', run_method_g run hs fe t (PPrim v) arg st = inl (fr', v).
 Proof. exact return_self_returns_receiver_l. Qed.
 Print Assumptions return_self_returns_receiver.
 
 (* Statics keep a value for the whole run: after ANY history of operations every static declared in
    any registered impl block is still present ... *)
-Theorem impl_static_persists : forall ds r vs hs ops st' d nz,
+Theorem impl_static_persists : forall n ds r vs hs ops st' d nz,
   wf_impls ds -> register_all empty_registry ds = inl r ->
-  run_ops hs (init_state r vs) ops = Ok st' -> In d ds -> In nz (i_statics d) ->
+  run_ops n hs (init_state r vs) ops = Ok st' -> In d ds -> In nz (i_statics d) ->
   exists z, alookup (static_key (i_iface d) (i_type d) (fst nz)) (s_statics st') = Some z.
 Proof. exact impl_static_persists_l. Qed.
 Print Assumptions impl_static_persists.
 
 (* ... the set of static cells never changes, and only calls can change a value (binding, pointer
    assignment, direct field writes and reads leave the whole table as it is). *)
-Theorem impl_static_table_stable : forall hs ops st st', run_ops hs st ops = Ok st' ->
-  keys (s_statics st') = keys (s_statics st).
+Theorem impl_static_table_stable : forall n hs ops st st', wf_ctx (s_ctx st) -> run_ops n hs st ops = Ok st' ->
+  keys (s_statics st') = keys (s_statics st) /\ s_ctx st' = s_ctx st.
 Proof. exact run_ops_keys. Qed.
 Print Assumptions impl_static_table_stable.
 
-Theorem statics_changed_only_by_calls : forall hs st o st', step hs st o = Ok st' ->
+Theorem statics_changed_only_by_calls : forall n hs st o st', step n hs st o = Ok st' ->
   match o with OCall _ _ _ | OVia _ _ _ => True | _ => s_statics st' = s_statics st end.
 Proof. exact step_noncall_statics. Qed.
 Print Assumptions statics_changed_only_by_calls.
@@ -205,12 +269,12 @@ Proof. exact no_impl_rejected_bind_l. Qed.
 Print Assumptions no_impl_rejected.
 
 (* ... and parameter passing; the program stops there with the output printed so far. *)
-Theorem no_impl_rejected_parameter : forall ds r hs st h hh i src d0 sv t p,
+Theorem no_impl_rejected_parameter : forall n ds r hs st h hh i src d0 sv t p,
   wf_impls ds -> register_all empty_registry ds = inl r -> s_impls st = r_impls r ->
   find (fun x => String.eqb (h_name x) h) hs = Some hh -> h_iface hh = Some i -> src <> h_param hh ->
   alookup src (s_vars st) = Some sv -> src_view sv = Some (t, p) ->
   (forall d, In d ds -> ~ (i_iface d = i /\ i_type d = t)) ->
-  step hs st (OVia h src d0) = Fail (s_out st) (ENoImpl i t).
+  step n hs st (OVia h src d0) = Fail (s_out st) (ENoImpl i t).
 Proof. exact no_impl_rejected_param_l. Qed.
 Print Assumptions no_impl_rejected_parameter.
 
